@@ -183,6 +183,8 @@ def run(ctx):
     _ordering(ctx, model, E)
     _constructors(ctx, model, E)
     _quotient_shortcut(ctx, model)
+    _truthiness(ctx, model)
+    _unary_overrides(ctx, model, E)
 
 
 def _admission(ctx, model, E):
@@ -590,3 +592,214 @@ def _quotient_shortcut(ctx, model):
         elif ps.term == "return" and ps.retval[0] == "const":
             ctx.ob(f"I/quotient/constant-result:{ps.retval[1]}", False,
                    m.loc(fn), "quotient() folds to a constant")
+
+
+# truthiness: the shortcuts above read `not other`, `if self:` and is_zero() as
+# "this operand is zero".  A node class that defines __bool__ takes part in
+# that test, so a falsy node must evaluate to zero in every environment.
+# (class, field) -> the node's value is 0 wherever it is defined once that
+# operand is 0
+ABSORBING = {("Product", "children"), ("Quotient", "numerator"),
+             ("FloorDiv", "numerator"), ("Remainder", "numerator"),
+             ("LeftShift", "shiftee"), ("RightShift", "shiftee"),
+             ("BitwiseAnd", "children")}
+# the value can be non-zero although that operand is 0
+NOT_ABSORBING = {("Power", "base"): "0 ** 0 == 1",
+                 ("Power", "exponent"): "x ** 0 == 1",
+                 ("Quotient", "denominator"): "x / 0 is undefined, not 0",
+                 ("FloorDiv", "denominator"): "x // 0 is undefined, not 0",
+                 ("Remainder", "denominator"): "x % 0 is undefined, not 0",
+                 ("Sum", "children"): "0 + y == y",
+                 ("BitwiseOr", "children"): "0 | y == y",
+                 ("BitwiseXor", "children"): "0 ^ y == y",
+                 ("LeftShift", "shift"): "x << 0 == x",
+                 ("RightShift", "shift"): "x >> 0 == x"}
+SINGLETON_IS_CHILD = {"Sum", "Product", "BitwiseOr", "BitwiseXor", "BitwiseAnd"}
+
+
+def _truthiness(ctx, model):
+    nt = model.nodes
+    E = nt.expression
+    n_judged = 0
+    for n in nt.all():
+        if n.name in ("Polynomial", "Rational", "MultiVector") or n.legacy:
+            continue
+        mem = model.lookup(n.cls, "__bool__")
+        if mem is None:
+            continue
+        if any(k is not n.cls for k in model.subclasses(n.cls)) and \
+                n.name not in SINGLETON_IS_CHILD and \
+                not any((n.name, f) in ABSORBING for f in n.field_names):
+            # an abstract family base (QuotientBase): its concrete subclasses
+            # are judged one by one
+            continue
+        if mem.kind != "func":
+            raise AnalysisError(f"{n.name}.__bool__ is not a plain method")
+        n_judged += 1
+        me = mem.node.args.args[0].arg
+        bad = None
+
+        def operand(x, conds):
+            """-> (field, why-ok) | raises; x is the value whose zero-ness
+            decides"""
+            if x[0] == "self":
+                return x[1], "scalar"
+            if x[0] == "elem" and x[1][0] == "self":
+                return x[1][1], "any"
+            if x[0] == "index" and x[1][0] == "self" and x[2] == 0:
+                one = any(pol and v == ("compare", ("Eq",),
+                                        ("len", x[1]), (("const", 1),))
+                          for _, pol, v in conds)
+                return x[1][1], "single" if one else "first"
+            raise AnalysisError(f"{n.name}.__bool__ tests {x}: not an operand "
+                                "form the truthiness rule reads")
+
+        def judge(x, conds):
+            f, how = operand(x, conds)
+            if how == "single" and n.name in SINGLETON_IS_CHILD:
+                return None
+            if how == "first":
+                return (f"it tests only the first of {f} without knowing there "
+                        "is exactly one")
+            if (n.name, f) in ABSORBING and how in ("scalar", "any"):
+                return None
+            if (n.name, f) in NOT_ABSORBING:
+                return (f"a zero '{f}' does not make a {n.name} zero "
+                        f"({NOT_ABSORBING[(n.name, f)]})")
+            raise AnalysisError(f"{n.name}.__bool__ depends on '{f}': the rule "
+                                "has no algebraic fact about that operand")
+
+        for ps in summarize(mem.node, node_param=False, loop_mode="01"):
+            if ps.term != "return":
+                continue
+            rv = ps.retval
+            if rv == ("const", True):
+                continue
+            if rv == ("const", False):
+                just = [v for _, pol, v in ps.conds
+                        if pol and v[0] == "call" and v[1] == "is_zero"] + \
+                       [v[2] for _, pol, v in ps.conds
+                        if pol and v[0] == "unop" and v[1] == "Not"]
+                if not just:
+                    raise AnalysisError(f"{n.name}.__bool__ returns False on a "
+                                        "path the truthiness rule cannot read")
+                for v in just:
+                    x = v[2][0] if v[0] == "call" else v
+                    bad = bad or judge(x, ps.conds)
+                continue
+            if rv[0] == "call" and rv[1] in ("bool", "is_nonzero") and \
+                    len(rv[2]) == 1:
+                bad = bad or judge(rv[2][0], ps.conds)
+                continue
+            if rv[0] == "unop" and rv[1] == "Not" and rv[2][0] == "call" and \
+                    rv[2][1] == "is_zero":
+                bad = bad or judge(rv[2][2][0], ps.conds)
+                continue
+            # not any(is_zero(c) for c in children) / all(is_nonzero(c) ...)
+            inner, neg = rv, False
+            if inner[0] == "unop" and inner[1] == "Not":
+                inner, neg = inner[2], True
+            if inner[0] == "call" and inner[1] in ("any", "all") and \
+                    len(inner[2]) == 1 and inner[2][0][0] == "seq" and \
+                    not inner[2][0][4]:
+                el = inner[2][0][2]
+                zero_test = None
+                if el[0] == "call" and el[1] == "is_zero":
+                    zero_test, x = True, el[2][0]
+                elif el[0] == "call" and el[1] in ("is_nonzero", "bool"):
+                    zero_test, x = False, el[2][0]
+                elif el[0] == "unop" and el[1] == "Not" and el[2][0] == "call" \
+                        and el[2][1] == "is_zero":
+                    zero_test, x = False, el[2][2][0]
+                # falsy <=> some element is zero
+                if (inner[1] == "any" and neg and zero_test is True) or \
+                        (inner[1] == "all" and not neg and zero_test is False):
+                    bad = bad or judge(x, ps.conds)
+                    continue
+            raise AnalysisError(f"{n.name}.__bool__ returns {rv}: not a form "
+                                "the truthiness rule reads")
+        ctx.ob(f"E/{n.name}.__bool__/falsy-means-zero", bad is None,
+               mem.owner.loc(mem.node),
+               f"a falsy {n.name} evaluates to zero wherever it is defined"
+               if bad is None else
+               f"{mem.owner.name}.__bool__ (as {n.name}): {bad}; the "
+               "construction shortcuts read a falsy operand as zero (x + e -> x,"
+               " x * e -> 0), so they change the value of the tree")
+    ctx.floor("node classes with a truthiness rule", n_judged, 5)
+
+
+# unary minus overridden below Expression: -(node) may be rebuilt with one
+# operand negated only where the node's value is odd in that operand
+ODD_IN = {("Quotient", "numerator"), ("Quotient", "denominator")}
+NOT_ODD_IN = {("FloorDiv", "numerator"): "-(7 // 2) == -3 but (-7) // 2 == -4",
+              ("FloorDiv", "denominator"): "-(7 // 2) == -3 but 7 // (-2) == -4",
+              ("Remainder", "numerator"): "-(7 % 3) == -1 but (-7) % 3 == 2",
+              ("Remainder", "denominator"): "-(7 % 3) == -1 but 7 % (-3) == -2",
+              ("Power", "base"): "-(2 ** 2) == -4 but (-2) ** 2 == 4",
+              ("Power", "exponent"): "-(2 ** 2) == -4 but 2 ** (-2) == 0.25",
+              ("Sum", "children"): "-(a + b) negates every term, not one"}
+
+
+def _unary_overrides(ctx, model, E):
+    nt = model.nodes
+    base = {k: E.members.get(k) for k in ("__neg__", "__pos__", "__invert__",
+                                          "__abs__")}
+    n_cls = 0
+    for n in nt.all():
+        if n.name in ("Polynomial", "Rational", "MultiVector") or n.legacy:
+            continue
+        n_cls += 1
+        for name in base:
+            mem = model.lookup(n.cls, name)
+            if mem is None or mem is base[name] or (
+                    base[name] is not None and mem.node is base[name].node):
+                continue
+            if mem.kind != "func":
+                raise AnalysisError(f"{n.name}.{name} is not a plain method")
+            if any(k is not n.cls for k in model.subclasses(n.cls)) and not any(
+                    (n.name, f) in ODD_IN or (n.name, f) in NOT_ODD_IN
+                    for f in n.field_names):
+                continue        # family base: concrete subclasses judged
+            bad = None
+            for ps in summarize(mem.node, node_param=False):
+                if ps.term != "return":
+                    continue
+                rv = ps.retval
+                if name == "__neg__" and rv in (
+                        ("binop", "Mult", ("const", -1), S),
+                        ("binop", "Mult", S, ("const", -1))):
+                    continue
+                if name == "__pos__" and rv == S:
+                    continue
+                if name == "__neg__" and rv[0] == "ctor" and (
+                        rv[1] == ("typeof", S) or rv[1] == ("global", n.name)) \
+                        and not rv[3] and len(rv[2]) == len(n.field_names):
+                    negated = []
+                    for f, a in zip(n.field_names, rv[2]):
+                        if a == ("self", f):
+                            continue
+                        if a == ("unop", "USub", ("self", f)) or a in (
+                                ("binop", "Mult", ("const", -1), ("self", f)),):
+                            negated.append(f)
+                            continue
+                        raise AnalysisError(
+                            f"{n.name}.__neg__ rebuilds the node with {a} for "
+                            f"'{f}': not a form the rule reads")
+                    if len(negated) == 1 and (n.name, negated[0]) in ODD_IN:
+                        continue
+                    if len(negated) == 1 and (n.name, negated[0]) in NOT_ODD_IN:
+                        bad = (f"-node is rebuilt as {n.name} with '{negated[0]}'"
+                               f" negated, but {n.name} is not odd in that "
+                               f"operand: {NOT_ODD_IN[(n.name, negated[0])]}")
+                        continue
+                    raise AnalysisError(
+                        f"{n.name}.__neg__ negates {negated}: the rule has no "
+                        "algebraic fact about that")
+                raise AnalysisError(f"{mem.owner.name}.{name} (as {n.name}) "
+                                    f"returns {rv}: not a form the rule reads")
+            ctx.ob(f"E/{n.name}.{name}/override", bad is None,
+                   mem.owner.loc(mem.node),
+                   f"{mem.owner.name}.{name} keeps the value for {n.name}"
+                   if bad is None else
+                   f"{mem.owner.name}.{name}, inherited by {n.name}: {bad}")
+    ctx.floor("node classes scanned for unary overrides", n_cls, 40)
